@@ -322,7 +322,8 @@ pub fn run(ctx: &Ctx) -> (Outcome, String, Option<bool>) {
     }
     let mut out = super::hist::run_histories(ctx, "histories", p, ctx.scale(500, 5000), C06::default);
     out.absorb(crate::runner::run_sharded(ctx, "big-honest-blocks", ctx.scale(6, 60), arb_big_block, |c, st, shard| check_big_block(c, st, shard)));
-    let rule = "Second phase: honest blocks of 150-420 transactions (a fan-out, one spender per coin, chains of up to 59 dependants), built in 1-3 batches with dependants before or after their parents, re-validated by the parent under 4 rebuilt sets. First phase: every block produced in generated histories (built honestly through apply_tx_batch in one or several batches + seal, all kinds of transactions, with and without proposer action, four network classes), and for each ~20 single mutations: each of the 11 header fields (+-1 or a flipped bit), a transaction removed / its data or a signature byte altered / a faucet added, the proposer action removed, added, sent elsewhere, or given another delta whose movement differs. Oracle: parent.apply_block(block) is Ok with header == block.header for the honest block under 4 rebuilt HashSets (fresh hash seeds, rotated insertion order), and Err for every mutation. Evaluations counts blocks; mutation checks are counted in classes. Non-trivial = honest block with >=2 transactions; distinct by block hash.".to_string();
+    out.absorb(super::hist::run_sampled_heights(ctx, &profile(), ctx.scale(150, 1500), C06::default));
+    let rule = "Also: the first phase's kind of histories on mainnet/testnet (85%) started at a height sampled anywhere below 2 000 000 (TIP-906 barrier crossed honestly first). Second phase: honest blocks of 150-420 transactions (a fan-out, one spender per coin, chains of up to 59 dependants), built in 1-3 batches with dependants before or after their parents, re-validated by the parent under 4 rebuilt sets. First phase: every block produced in generated histories (built honestly through apply_tx_batch in one or several batches + seal, all kinds of transactions, with and without proposer action, four network classes), and for each ~20 single mutations: each of the 11 header fields (+-1 or a flipped bit), a transaction removed / its data or a signature byte altered / a faucet added, the proposer action removed, added, sent elsewhere, or given another delta whose movement differs. Oracle: parent.apply_block(block) is Ok with header == block.header for the honest block under 4 rebuilt HashSets (fresh hash seeds, rotated insertion order), and Err for every mutation. Evaluations counts blocks; mutation checks are counted in classes. Non-trivial = honest block with >=2 transactions; distinct by block hash.".to_string();
     (out, rule, None)
 }
 
@@ -331,5 +332,5 @@ pub fn replay(case: &serde_json::Value) -> Check {
         let c: BigBlock = serde_json::from_value(case.clone()).map_err(|e| crate::evidence::Violation::new("replay-format", e.to_string()))?;
         return check_big_block(&c, &mut Stats::default(), 200);
     }
-    super::hist::replay_history(case, &profile(), C06::default())
+    super::hist::replay_any(case, &profile(), &profile(), C06::default())
 }
